@@ -14,6 +14,9 @@ func countOf(l *Loaded, pkg, fn string) int {
 	if err != nil {
 		panic(err)
 	}
+	if len(cpuTokens) == 0 {
+		initCPUTokens(16)
+	}
 	res := Explore(l.prog, f, nil, ExploreOpts{Workers: 1, Solver: "z3", TimeoutMs: 10000, Budget: 10_000_000})
 	return int(res.Ret)
 }
@@ -224,6 +227,96 @@ func init() {
 				Args: func(tier string, l *Loaded) [][]int64 { return seqArgs(countOf(l, "libvore", "VerifC12StmtCount"), 0) }},
 			{Name: "c12-twin", Overlay: srcOverlay, Pkg: "libvore", Entry: "VerifC12Stmt", Twin: true,
 				Args: func(tier string, l *Loaded) [][]int64 { return [][]int64{{0, 1}} }},
+		}}
+	astOv := func(files ...string) map[string][]string { return map[string][]string{"ast": files} }
+	prefixJobs := func(l *Loaded, countFn string, n int64) [][]int64 {
+		var out [][]int64
+		for i := 0; i < countOf(l, "ast", countFn); i++ {
+			out = append(out, []int64{int64(i), n})
+		}
+		return out
+	}
+	properties["C08"] = &PropertySpec{ID: "C08",
+		Rule:        "lexer: all byte strings of length <= 2 (thorough 3) over all 256 values, plus 15 corpus prefixes that end inside strings/escapes/comments/regex literals/operators followed by 2 (thorough 3) arbitrary bytes; parser: token lists of 4 (thorough 5) tokens with symbolic TokenType over all token types + EOF, and 36 concrete token prefixes (every construct of the grammar cut at every interesting point) followed by 2 (thorough 3) symbolic tokens; regex sub-parser: bodies of <= 3 (thorough 4) arbitrary bytes and 24 prefixes + 2 (thorough 3) bytes; accepted ASTs are walked for holes and fed to the real GenerateBytecode (program or error, no panic); unwinding budget 2e6 SSA steps (hang = violation after native replay under timeout)",
+		Assumptions: []string{"token lexemes are the representative \"1\" (numbers, identifiers, strings)", "sources longer than the bounds unless they share a corpus prefix"},
+		Groups: []JobGroup{
+			{Name: "c08-lex", Overlay: astOv("C08/c08_lex.go"), Pkg: "ast", Entry: "VerifC08Lex", BudgetIsViolation: true, Budget: 2_000_000,
+				Args: func(tier string, l *Loaded) [][]int64 {
+					if tier == "thorough" {
+						return [][]int64{{0}, {1}, {2}, {3}}
+					}
+					return [][]int64{{0}, {1}, {2}}
+				}},
+			{Name: "c08-lex-corpus", Overlay: astOv("C08/c08_lex.go"), Pkg: "ast", Entry: "VerifC08LexCorpus", BudgetIsViolation: true, Budget: 2_000_000,
+				Args: func(tier string, l *Loaded) [][]int64 {
+					out := prefixJobs(l, "VerifC08LexCorpusCount", 0)
+					out = append(out, prefixJobs(l, "VerifC08LexCorpusCount", 1)...)
+					out = append(out, prefixJobs(l, "VerifC08LexCorpusCount", 2)...)
+					if tier == "thorough" {
+						out = append(out, prefixJobs(l, "VerifC08LexCorpusCount", 3)...)
+					}
+					return out
+				}},
+			{Name: "c08-parse", Overlay: astOv("C08/c08_parse.go"), Pkg: "ast", Entry: "VerifC08Parse", BudgetIsViolation: true, Budget: 2_000_000,
+				Args: func(tier string, l *Loaded) [][]int64 {
+					out := [][]int64{{0, 1}, {0, 2}, {0, 3}, {0, tOf(tier, 4, 5)}}
+					for n := int64(0); n <= tOf(tier, 2, 3); n++ {
+						out = append(out, prefixJobs(l, "VerifC08ParsePrefixCount", n)[1:]...)
+					}
+					return out
+				}},
+			{Name: "c08-gen", Overlay: map[string][]string{"ast": {"C08/c08_parse.go", "C08/ast_shim.go"}, "libvore": {"common/lib.go", "C08/c08_gen.go"}}, Pkg: "libvore", Entry: "VerifC08Gen", BudgetIsViolation: true, Budget: 2_000_000,
+				Args: func(tier string, l *Loaded) [][]int64 {
+					var out [][]int64
+					for i := 0; i < countOf(l, "libvore", "VerifC08GenCount"); i++ {
+						for n := int64(0); n <= tOf(tier, 2, 3); n++ {
+							out = append(out, []int64{int64(i), n})
+						}
+					}
+					return out
+				}},
+			{Name: "c08-regex", Overlay: astOv("C08/c08_parse.go"), Pkg: "ast", Entry: "VerifC08Regex", BudgetIsViolation: true, Budget: 2_000_000,
+				Args: func(tier string, l *Loaded) [][]int64 {
+					out := [][]int64{{0, 1}, {0, 2}, {0, 3}}
+					if tier == "thorough" {
+						out = append(out, []int64{0, 4})
+					}
+					for n := int64(0); n <= tOf(tier, 2, 3); n++ {
+						out = append(out, prefixJobs(l, "VerifC08RegexPrefixCount", n)[1:]...)
+					}
+					return out
+				}},
+		}}
+	properties["C16"] = &PropertySpec{ID: "C16",
+		Rule:        "real lexer on quote + n arbitrary bytes in 0x01..0x7f + quote for n = 0..4 (thorough 5), both quote styles (symbolic), and on \\x + n bytes for n = 0..3 (thorough 4); API level: Compile(find all <literal>) with body of 1..3 (thorough 4) arbitrary bytes run on a symbolic text of the spelled length (matches iff text == spelled bytes); expected bytes from refUnescape (documented escapes; \\xHH claimed for HH < 0x80)",
+		Assumptions: []string{"ASCII literal text (0x01..0x7f)", "\\xHH with HH >= 0x80 or HH = 00 is outside the claim"},
+		Groups: []JobGroup{
+			{Name: "c16-lex", Overlay: astOv("C16/unescape.go", "C16/c16_lex.go"), Pkg: "ast", Entry: "VerifC16Lex",
+				Args: func(tier string, l *Loaded) [][]int64 {
+					out := [][]int64{{0, 0}, {1, 0}, {2, 0}, {3, 0}, {4, 0}}
+					if tier == "thorough" {
+						out = append(out, []int64{5, 0})
+					}
+					return out
+				}},
+			{Name: "c16-lex-x", Overlay: astOv("C16/unescape.go", "C16/c16_lex.go"), Pkg: "ast", Entry: "VerifC16LexPrefixed",
+				Args: func(tier string, l *Loaded) [][]int64 {
+					out := [][]int64{{0}, {1}, {2}, {3}}
+					if tier == "thorough" {
+						out = append(out, []int64{4})
+					}
+					return out
+				}},
+			{Name: "c16-match", Overlay: map[string][]string{"libvore": {"common/lib.go", "C16/unescape.go", "C16/c16_match.go"}}, Pkg: "libvore", Entry: "VerifC16Match",
+				Args: func(tier string, l *Loaded) [][]int64 {
+					out := [][]int64{{1, 0}, {2, 0}, {3, 0}}
+					if tier == "thorough" {
+						out = append(out, []int64{4, 0})
+					}
+					return out
+				}},
+			{Name: "c16-twin", Overlay: astOv("C16/unescape.go", "C16/c16_lex.go"), Pkg: "ast", Entry: "VerifC16Lex", Twin: true,
+				Args: func(tier string, l *Loaded) [][]int64 { return [][]int64{{1, 1}} }},
 		}}
 	properties["T00"] = &PropertySpec{ID: "T00", Groups: []JobGroup{{
 		Name: "toy2", Overlay: map[string][]string{"libvore": {"toy/toy2.go"}}, Pkg: "libvore", Entry: "VerifToy2",
